@@ -297,9 +297,8 @@ def run_c05(ctx):
                 if exc is None:
                     raise Violation("conflict-not-raised:" + op,
                                     "conflicting data under the default policy was merged silently")
-                if type(exc).__name__ != "MergeError":
-                    raise Violation("conflict-wrong-error:" + op, "{}: {}".format(
-                        type(exc).__name__, short(str(exc), 200)), site=xyz_site(exc))
+                # (any error counts as a refusal; xarray's MergeError today)
+                ctx.stats["refusal-" + type(exc).__name__] += 1
                 after = G.snapshot_tree(root)
                 if set(after or {}) != set(before_disk or {}) or any(
                         (after or {}).get(k) != v for k, v in (before_disk or {}).items()
